@@ -119,16 +119,55 @@ func splitNames(s string) []string {
 	return strings.Split(s, ",")
 }
 
-func parseEntries(ws []string) ([]item, bool) {
-	var out []item
-	seen := map[string]bool{}
+// initEntry: one word of an `init` line. kind: "" regular file, "out"/"in" symbolic link to a file outside /
+// inside (<dir>/lnk/<name>) the configuration directories, "dangling", "dir" (see the Lean driver).
+type initEntry struct {
+	logical, tok, kind string
+}
+
+func parseEntries(ws []string) ([]initEntry, bool) {
+	var out []initEntry
+	seen := map[string]string{}
 	for _, w := range ws {
 		parts := strings.Split(w, "=")
-		if len(parts) != 2 || !okLogical(parts[0]) || parts[1] == "" || seen[parts[0]] {
+		if len(parts) != 2 || !okLogical(parts[0]) || parts[1] == "" {
 			return nil, false
 		}
-		seen[parts[0]] = true
-		out = append(out, item{parts[0], parts[1]})
+		if _, dup := seen[parts[0]]; dup {
+			return nil, false
+		}
+		e := initEntry{logical: parts[0]}
+		vs := strings.Split(parts[1], "~")
+		switch len(vs) {
+		case 1:
+			e.tok = vs[0]
+		case 2:
+			e.tok, e.kind = vs[0], vs[1]
+			inDir := strings.Contains(e.logical, "/")
+			switch {
+			case !inDir:
+				return nil, false
+			case e.tok == "" && (e.kind == "dangling" || e.kind == "dir"):
+			case e.tok != "" && (e.kind == "out" || e.kind == "in"):
+			default:
+				return nil, false
+			}
+		default:
+			return nil, false
+		}
+		seen[e.logical] = e.tok
+		if e.kind == "dangling" || e.kind == "dir" {
+			seen[e.logical] = "\x00"
+		}
+		out = append(out, e)
+	}
+	for _, e := range out {
+		if e.kind == "in" {
+			name := e.logical[2:]
+			if strings.Contains(name, "/") || seen[e.logical[:2]+"lnk/"+name] != e.tok {
+				return nil, false
+			}
+		}
 	}
 	return out, true
 }
@@ -220,12 +259,40 @@ func parsePut(ws []string) (*putOp, bool) {
 
 // ------------------------------------------------------------------ execution
 
-func (w *world) writeTree(entries []item) {
+func (w *world) writeTree(entries []initEntry) {
 	w.wipe()
+	outside := filepath.Join(w.l.root, "outside")
+	must(os.MkdirAll(filepath.Join(outside, "adir"), 0o755))
+	inTargets := map[string][]byte{}
+	for _, e := range entries {
+		if e.kind == "in" {
+			// the link and its target hold the bytes the token means AT THE LINK's path
+			inTargets[e.logical[:2]+"lnk/"+e.logical[2:]] = renderTok(e.logical, e.tok)
+		}
+	}
 	for _, e := range entries {
 		rp, _ := w.l.real(e.logical)
 		must(os.MkdirAll(filepath.Dir(rp), 0o755))
-		must(os.WriteFile(rp, renderTok(e.logical, e.tok), 0o644))
+		switch e.kind {
+		case "":
+			b := renderTok(e.logical, e.tok)
+			if tb, ok := inTargets[e.logical]; ok {
+				b = tb
+				revTok[revKey(e.logical, b)] = e.tok
+			}
+			must(os.WriteFile(rp, b, 0o644))
+		case "out":
+			target := filepath.Join(outside, strings.ReplaceAll(e.logical, "/", "_"))
+			must(os.WriteFile(target, renderTok(e.logical, e.tok), 0o644))
+			must(os.Symlink(target, rp))
+		case "in":
+			tp, _ := w.l.real(e.logical[:2] + "lnk/" + e.logical[2:])
+			must(os.Symlink(tp, rp))
+		case "dangling":
+			must(os.Symlink(filepath.Join(outside, "nothing-here"), rp))
+		case "dir":
+			must(os.Symlink(filepath.Join(outside, "adir"), rp))
+		}
 	}
 }
 
@@ -236,8 +303,9 @@ func (w *world) snap() treeSnap {
 	for _, d := range []string{w.l.flows, w.l.quotas, w.l.pparams} {
 		filepath.Walk(d, func(p string, info os.FileInfo, err error) error {
 			if err == nil && !info.IsDir() {
-				b, _ := os.ReadFile(p)
-				s[p] = b
+				if b, err := os.ReadFile(p); err == nil { // through symbolic links; dangling ones are absent
+					s[p] = b
+				}
 			}
 			return nil
 		})
